@@ -165,7 +165,7 @@ def joint(draw, name, jt, limits=True, passive=True, frictionloss=True, armature
 @st.composite
 def options(draw, integrators=('Euler', 'RK4', 'implicit', 'implicitfast'), solvers=('PGS', 'CG', 'Newton'),
             cones=('pyramidal', 'elliptic'), jacobians=('dense', 'sparse', 'auto'), flags=True, gravity=True,
-            timestep=(0.0005, 0.01), islands=True, sleep=False, fluid=False, extra=None):
+            timestep=(0.0005, 0.01), islands=True, sleep=False, fluid=False, extra=None, stress=False):
   a = dict(timestep=fmt(draw(num(timestep[0], timestep[1], 4))))
   a['integrator'] = draw(st.sampled_from(list(integrators)))
   a['solver'] = draw(st.sampled_from(list(solvers)))
@@ -190,6 +190,16 @@ def options(draw, integrators=('Euler', 'RK4', 'implicit', 'implicitfast'), solv
   if extra:
     a.update(extra)
   fl = {}
+  if stress:
+    # option combinations under which hidden state matters most: cold start, unconverged solver, noslip
+    if draw(st.integers(0, 2)) == 0:
+      fl['warmstart'] = 'disable'
+    if draw(st.integers(0, 2)) == 0:
+      a['iterations'] = str(draw(st.sampled_from([1, 2, 3, 5])))
+    if draw(st.integers(0, 4)) == 0:
+      a['noslip_iterations'] = str(draw(st.integers(1, 3)))
+    if draw(st.integers(0, 4)) == 0:
+      a['tolerance'] = '0'
   if flags:
     for f in ('warmstart', 'filterparent', 'refsafe', 'eulerdamp', 'midphase', 'actuation', 'limit', 'frictionloss',
               'equality', 'spring', 'damper'):
